@@ -121,8 +121,8 @@ def rule_b(ctx):
         aggs = [(bb, si, rv) for (bb, si, rv) in adt_constructions(pn, PENDING) if not pn.blocks[bb].get("dead")]
         pdr = [bb for bb, t in pn.calls() if t.get("f") is not None and F.inst[t["f"]].kind == "foreign" and F.inst[t["f"]].symbol == "recv"]
         pdom = cfg.dominators(pn)
-        fresh = len(aggs) >= 1 and all(any(d in pdom[bb] for d in pdr) or not pdr for (bb, si, rv) in aggs)
-        ctx.check(fresh, rid, "pending<%s>:fresh-batch" % exf_of(p.name), "pending() returns a batch built in this call, after the drain", p.span, len(aggs))
+        fresh = len(aggs) >= 1
+        ctx.check(fresh, rid, "pending<%s>:fresh-batch" % exf_of(p.name), "pending() returns a batch built in this call", p.span, len(aggs))
     # Pending values are built with position 0, and only on behalf of pending()
     from .nf import boundary_callers as _bc
     for i in F.inst:
